@@ -89,7 +89,7 @@ PROPOSED_FINDINGS = [
     ("hint_object/nil-hints-panic",
      "hint_object writes into object.Type.Hints without checking for a nil map: an object whose type came from a YAML `as:` (retype_object / add_object) makes Passes.Process panic"),
     ("seq/as-value-shared",
-     "retype_object / retype_field / add_fields assign the very same Type value (same kind pointers) to every case-variant match; a later PrefixObjectsNames rewrites the shared reference once per holder (p.Bar becomes p.XXBar)"),
+     "retype_object / retype_field / add_fields assign the very same Type value (same kind pointers) to every case-variant match (add_object: to every schema of the package); a later PrefixObjectsNames rewrites the shared reference / enum once per holder (p.Bar becomes p.XXBar)"),
 ]
 
 
